@@ -5,6 +5,8 @@ package c19
 
 import (
 	"context"
+	"encoding/json"
+	"os"
 
 	"fmt"
 	admplugins "github.com/NVIDIA/KAI-scheduler/pkg/admission/plugins"
@@ -175,6 +177,12 @@ func genPod(r *u.Rng, malformed bool) podSpec {
 	frac := func() string {
 		if malformed || r.Chance(1, 4) {
 			return genFloatStr(r)
+		}
+		switch r.Intn(5) {
+		case 0: // more than two decimals: the grant has to carry them to the container
+			return u.Pick(r, []string{"0.001", "0.004", "0.005", "0.125", "0.333", "0.375", "0.0625", "0.995", "0.999", "0.666", "0.015", "0.3333333333333333"})
+		case 1:
+			return fmt.Sprintf("0.%03d", r.Range(1, 999))
 		}
 		return u.Pick(r, []string{"0.5", "0.25", "0.1", "0.33", "0.75", "0.05", "0.99", "1e-1", "0x1p-1"})
 	}
@@ -526,16 +534,11 @@ func Eval(p podSpec) (string, obs) {
 	o.Selection = selectionClass(p)
 	bindTerm, legacyTerm := "None", "None"
 	if verr == nil && merr == nil && resources.RequestsGPUFraction(pod) && len(pod.Spec.Containers) > 0 {
-		// the portion string as the scheduler renders the grant (cache.createBindRequest: "%.2f")
-		portion := g.GpuFractionalPortion()
-		if rt == "GpuMemory" && p.Bind.NodeGpuMemory > 0 {
-			portion = float64(g.GpuMemory()) / float64(p.Bind.NodeGpuMemory)
-		}
 		plan := p.Bind
 		if len(plan.Rounds) == 0 {
 			plan.Rounds = []grant{{Ids: []string{"3", "1", "0", "2"}}}
 		}
-		bt, bo := runBinder(plan, m1, g.GetNumOfGpuDevices(), fmt.Sprintf("%.2f", portion))
+		bt, bo := runBinder(plan, m1, g.GetNumOfGpuDevices())
 		bindTerm, o.Binder = "(Some "+bt+")", &bo
 		if plan.Legacy {
 			// a pod admitted before the webhook wired its containers: only the config-map annotation is there
@@ -543,7 +546,7 @@ func Eval(p podSpec) (string, obs) {
 			lp.Annotations[cmAnn] = m1.Annotations[cmAnn]
 			lplan := plan
 			lplan.Rounds = plan.Rounds[:1]
-			lt, lo := runBinder(lplan, lp, g.GetNumOfGpuDevices(), fmt.Sprintf("%.2f", portion))
+			lt, lo := runBinder(lplan, lp, g.GetNumOfGpuDevices())
 			legacyTerm, o.Legacy = "(Some ("+podTerm(lp)+", "+lt+"))", &lo
 		}
 	}
@@ -561,6 +564,22 @@ func fix(p *podSpec) {
 	}
 	for i := range p.Inits {
 		fixc(&p.Inits[i])
+	}
+}
+func unfix(p *podSpec) {
+	un := func(c *cont) {
+		if v, err := strconv.ParseInt(c.ReqS, 10, 64); err == nil && c.ReqS != "" {
+			c.Req = &v
+		}
+		if v, err := strconv.ParseInt(c.LimS, 10, 64); err == nil && c.LimS != "" {
+			c.Lim = &v
+		}
+	}
+	for i := range p.Containers {
+		un(&p.Containers[i])
+	}
+	for i := range p.Inits {
+		un(&p.Inits[i])
 	}
 }
 func fixc(c *cont) {
@@ -605,6 +624,17 @@ func corpus() []podSpec {
 	}
 	out = append(out, mk(map[string]string{"gpu-fraction": "0.5"}, false))
 	out = append(out, mk(map[string]string{"gpu-memory": "100"}, false))
+	// fractions with more than two decimals: what the selected container is told must still be the request
+	for _, f := range []string{"0.001", "0.004", "0.005", "0.125", "0.333", "0.995", "0.999", "0.9999999999999999", "0.25", "0.07"} {
+		q := mk(map[string]string{"gpu-fraction": f}, true)
+		q.Bind = bindPlan{Rounds: []grant{{Ids: []string{"0", "1", "2", "3"}, NodeGpuMemory: 16384}}}
+		out = append(out, q)
+	}
+	for _, m := range []string{"1", "100", "4096", "5000", "16384", "20000"} {
+		q := mk(map[string]string{"gpu-memory": m}, true)
+		q.Bind = bindPlan{Rounds: []grant{{Ids: []string{"0", "1", "2", "3"}, NodeGpuMemory: 16384}, {Ids: []string{"1", "0", "2", "3"}, NodeGpuMemory: 24576}}}
+		out = append(out, q)
+	}
 	// per-container selection (seeded/C19-4): the fraction container is named; regular, init, a name carried by an
 	// init and a regular container, nobody's name, the empty name; fraction and gpu-memory; a retry with another grant
 	for _, name := range []string{"trainer", "warmup", "fetch-data", "sidecar", "shared", "nope", ""} {
@@ -616,8 +646,8 @@ func corpus() []podSpec {
 			q := podSpec{Ann: a, Name: "train", Enabled: true,
 				Containers: []cont{{Name: "sidecar"}, {Name: "trainer"}, {Name: "shared"}},
 				Inits:      []cont{{Name: "fetch-data"}, {Name: "warmup"}, {Name: "shared"}}}
-			q.Bind = bindPlan{NodeGpuMemory: 16384, Legacy: true,
-				Rounds: []grant{{Ids: []string{"3", "5", "0", "1"}}, {Cdi: true, Ids: []string{"2", "0", "4", "6"}, Portion: "0.25"}}}
+			q.Bind = bindPlan{Legacy: true,
+				Rounds: []grant{{Ids: []string{"3", "5", "0", "1"}, NodeGpuMemory: 16384}, {Cdi: true, Ids: []string{"2", "0", "4", "6"}, NodeGpuMemory: 40960}}}
 			out = append(out, q)
 		}
 	}
@@ -627,6 +657,7 @@ func corpus() []podSpec {
 // Run generates n cases from seed and writes them under dir.
 func Run(dir string, seed uint64, n int) error {
 	out := u.NewOut(dir, "C19", "KaiV.Run.C19", "case", 100)
+	out.Flags = true
 	root := u.NewRng(seed)
 	quietLogs()
 	// the real code runs on 8 goroutines (every pod is evaluated on its own objects and its own fake client);
@@ -656,7 +687,12 @@ func Run(dir string, seed uint64, n int) error {
 		if o.Binder != nil {
 			label += fmt.Sprintf(" binder: selected=%s#%d(%q)", o.Binder.RefType, o.Binder.RefIndex, o.Binder.RefName)
 			for _, ro := range o.Binder.Rounds {
-				label += fmt.Sprintf(" grant{cdi=%v devices=%q portion=%q ok=%v}", ro.Grant.Cdi, ro.Grant.Ids, ro.Grant.Portion, ro.Ok)
+				label += fmt.Sprintf(" grant{cdi=%v devices=%q node_gpu_memory=%d scheduler: accepted_portion=%v bindrequest{type=%s count=%d portion=%q groups=%d} prebind_ok=%v portion_exact=%v}",
+					ro.Grant.Cdi, ro.Grant.Ids, ro.Grant.NodeGpuMemory, ro.Sched.AcceptedPortion, ro.Sched.ReceivedType, ro.Sched.Count, ro.Sched.Portion,
+					len(ro.Sched.Groups), ro.Ok, ro.PortionExact)
+				if !ro.PortionExact {
+					label += " PORTION-NOT-EXACT"
+				}
 				for _, e := range ro.Env {
 					if e.Type == o.Binder.RefType && e.Index == o.Binder.RefIndex {
 						label += fmt.Sprintf(" selected container starts with NVIDIA_VISIBLE_DEVICES=%s:%q GPU_PORTION=%s:%q",
@@ -692,6 +728,22 @@ func Run(dir string, seed uint64, n int) error {
 				if !ro.Ok {
 					out.Count("binder:prebind error")
 				}
+				if !ro.Sched.Ok {
+					out.Count("binder:scheduler bind path failed")
+				}
+				switch {
+				case ro.PortionExact:
+					out.Count("binder:portion told to the container == portion booked: " + o.Type)
+				case ro.PortionClose:
+					out.Count("binder:portion told to the container != portion booked (within 0.005): " + o.Type)
+				default:
+					out.Count("binder:portion told to the container != portion booked (off by more): " + o.Type)
+				}
+				if fs, ok := p.Ann["gpu-fraction"]; ok && o.Type == "Fraction" {
+					if i := strings.IndexByte(fs, '.'); i >= 0 && len(fs)-i-1 > 2 && !strings.ContainsAny(fs, "eExXpP") {
+						out.Count("binder:gpu-fraction with more than two decimals")
+					}
+				}
 				// does any container other than the selected one see the grant (it referenced the maps before)?
 				for _, e := range ro.Env {
 					if (e.Type != b.RefType || e.Index != b.RefIndex) && e.Devices.Kind == "value" && e.Devices.V != "" {
@@ -723,7 +775,28 @@ func Run(dir string, seed uint64, n int) error {
 		}
 		out.Sample(map[string]any{"pod": p, "observed": o})
 	}
+	// C19_POD='<pod as printed in the evidence samples / replays>': run the real code on this one pod only and print
+	// what was observed (the case lands in <dir>/cases_0.v: coqc -Q /verif/coq KaiV cases_0.v evaluates it)
+	single := os.Getenv("C19_POD")
+	if single != "" {
+		var p podSpec
+		if err := json.Unmarshal([]byte(single), &p); err != nil {
+			return fmt.Errorf("C19_POD: %v", err)
+		}
+		if p.Ann == nil {
+			p.Ann = map[string]string{}
+		}
+		if p.Name == "" {
+			p.Name = "pod"
+		}
+		unfix(&p)
+		emit(p, "single")
+		n = 0
+	}
 	for _, p := range corpus() {
+		if single != "" {
+			break
+		}
 		emit(p, "corpus")
 	}
 	for i := 0; i < n; i++ {
@@ -754,6 +827,10 @@ func Run(dir string, seed uint64, n int) error {
 	wg.Wait()
 	for _, j := range jobs {
 		register(j)
+		if single != "" {
+			data, _ := json.MarshalIndent(map[string]any{"pod": j.p, "observed": j.o}, "", " ")
+			fmt.Println(string(data))
+		}
 	}
 	out.Stats["rule"] = "pods drawn from one splitmix64 stream (2/3 structured mostly-valid, 1/3 malformed annotation strings from a grammar-directed corpus: decimal, exponent, hex-float, NaN/Inf, signs, whitespace, overflow) after a fixed boundary corpus; non-trivial = carries a GPU annotation or a whole-GPU limit; distinct by (annotations, sharing flag, verdict, container counts). Per-container selection: on half of the sharing pods gpu-fraction-container-name names a regular container, an init container, a name shared by both, a name nobody carries or the empty name (distribution keys fraction_container / binder:*); for every pod admission accepts as a sharing request the real GetFractionContainerRef and the binder gpusharing PreBind (fake client, 1-2 grants, with and without pre-existing config maps, with and without CDI names) run on the mutated pod and the environment of every container is resolved from the ConfigMaps read back"
 	return out.Flush()
